@@ -28,9 +28,13 @@ VARIABLES fv,        \* [1..NC -> [st: "absent"|"live"|"dirty", cap, size, slots
 vars == <<fv, last>>
 
 C == 1..NC
-Absent == [st |-> "absent", cap |-> 0, size |-> 0, slots |-> <<>>]
+(* mf: ghost -- the container was the source of a move and has not been assigned since.  Nothing depends on it;
+   it is part of the state only so that the transition tour takes every edge also on moved-from containers. *)
+Absent == [st |-> "absent", cap |-> 0, size |-> 0, slots |-> <<>>, mf |-> FALSE]
 Mk(cap, s) == [st |-> "live", cap |-> cap, size |-> Len(s),
-               slots |-> [k \in 1..cap |-> IF k <= Len(s) THEN s[k] ELSE J]]
+               slots |-> [k \in 1..cap |-> IF k <= Len(s) THEN s[k] ELSE J], mf |-> FALSE]
+MovedFrom(cap) == [Mk(cap, <<>>) EXCEPT !.mf = TRUE]
+Keep(c, x) == [x EXCEPT !.mf = fv[c].mf]      \* element-level operations do not touch the ghost
 SeqOf(c) == SubSeq(fv[c].slots, 1, fv[c].size)
 Live(c) == fv[c].st = "live"
 Lists == UNION { [1..k -> Vals] : k \in 0..MaxList }
@@ -64,7 +68,7 @@ CopyConstruct(d, c) ==
 
 MoveConstruct(d, c) ==             \* the whole sequence goes to d; c stays usable: empty, same capacity
   /\ fv[d].st = "absent" /\ Live(c)
-  /\ fv' = [fv EXCEPT ![d] = Mk(fv[c].cap, SeqOf(c)), ![c] = Mk(fv[c].cap, <<>>)]
+  /\ fv' = [fv EXCEPT ![d] = Mk(fv[c].cap, SeqOf(c)), ![c] = MovedFrom(fv[c].cap)]
   /\ Op("MoveConstruct", <<d, c>>, "ok")
 
 Destroy(c) ==
@@ -78,7 +82,7 @@ CopyAssign(d, c) ==                \* also d = c (self assignment): nothing chan
 
 MoveAssign(d, c) ==
   /\ fv[d].st # "absent" /\ Live(c) /\ d # c
-  /\ fv' = [fv EXCEPT ![d] = Mk(fv[c].cap, SeqOf(c)), ![c] = Mk(fv[c].cap, <<>>)]
+  /\ fv' = [fv EXCEPT ![d] = Mk(fv[c].cap, SeqOf(c)), ![c] = MovedFrom(fv[c].cap)]
   /\ Op("MoveAssign", <<d, c>>, "ok")
 
 AssignList(d, s) ==                \* open: capacity kept (if it fits) or replaced by the length; raise if it does not fit
@@ -103,7 +107,7 @@ SetAt(c, k, v) ==                  \* write through at() / operator[] of a live 
 AppendOp(name, c, v) ==
   /\ Live(c) /\ v \in Vals
   /\ IF fv[c].size < fv[c].cap
-     THEN fv' = [fv EXCEPT ![c] = Mk(fv[c].cap, Append(SeqOf(c), v))] /\ Op(name, <<c, v>>, "ok")
+     THEN fv' = [fv EXCEPT ![c] = Keep(c, Mk(fv[c].cap, Append(SeqOf(c), v)))] /\ Op(name, <<c, v>>, "ok")
      ELSE Raise(name, <<c, v>>)
 
 EmplaceBack(c, v) == AppendOp("EmplaceBack", c, v)
@@ -114,19 +118,19 @@ PushBack(c, v)    == AppendOp("PushBack", c, v)
 EmplaceAt(c, k, v) ==              \* inserts before position k (0-based), k <= size
   /\ Live(c) /\ v \in Vals /\ k \in 0..fv[c].size
   /\ IF fv[c].size < fv[c].cap
-     THEN fv' = [fv EXCEPT ![c] = Mk(fv[c].cap, InsertAt(SeqOf(c), k + 1, v))] /\ Op("EmplaceAt", <<c, k, v>>, "ok")
+     THEN fv' = [fv EXCEPT ![c] = Keep(c, Mk(fv[c].cap, InsertAt(SeqOf(c), k + 1, v)))] /\ Op("EmplaceAt", <<c, k, v>>, "ok")
      ELSE Raise("EmplaceAt", <<c, k, v>>)
 
 PopBack(c) ==
   /\ Live(c)
   /\ IF fv[c].size > 0
-     THEN fv' = [fv EXCEPT ![c] = Mk(fv[c].cap, SubSeq(SeqOf(c), 1, fv[c].size - 1))] /\ Op("PopBack", <<c>>, "ok")
+     THEN fv' = [fv EXCEPT ![c] = Keep(c, Mk(fv[c].cap, SubSeq(SeqOf(c), 1, fv[c].size - 1)))] /\ Op("PopBack", <<c>>, "ok")
      ELSE Raise("PopBack", <<c>>)
 
 Erase(c, k) ==
   /\ Live(c) /\ k \in Nat
   /\ IF k < fv[c].size
-     THEN fv' = [fv EXCEPT ![c] = Mk(fv[c].cap, RemoveAt(SeqOf(c), k + 1))] /\ Op("Erase", <<c, k>>, "ok")
+     THEN fv' = [fv EXCEPT ![c] = Keep(c, Mk(fv[c].cap, RemoveAt(SeqOf(c), k + 1)))] /\ Op("Erase", <<c, k>>, "ok")
      ELSE Raise("Erase", <<c, k>>)
 
 (* ---- ranges ---------------------------------------------------------------------------------------- *)
@@ -138,14 +142,14 @@ RangeInsert(c, k, r) ==            \* insert(pos, first, last), pos = begin()+k
   /\ Live(c) /\ r \in Lists /\ k \in Nat /\ k <= fv[c].cap
   /\ IF k > fv[c].size THEN Raise("RangeInsert", <<c, k, r>>)
      ELSE IF k + Len(r) <= fv[c].cap
-          THEN fv' = [fv EXCEPT ![c] = Mk(fv[c].cap, Overwrite(SeqOf(c), k + 1, r))] /\ Op("RangeInsert", <<c, k, r>>, "ok")
+          THEN fv' = [fv EXCEPT ![c] = Keep(c, Mk(fv[c].cap, Overwrite(SeqOf(c), k + 1, r)))] /\ Op("RangeInsert", <<c, k, r>>, "ok")
           ELSE /\ fv' = [fv EXCEPT ![c].st = "dirty"]      \* does not fit: raises, contents unspecified
                /\ Op("RangeInsert", <<c, k, r>>, "raise")
 
 PushBackRange(c, r) ==             \* push_back(first, last): the range form of append
   /\ Live(c) /\ r \in Lists
   /\ IF fv[c].size + Len(r) <= fv[c].cap
-     THEN fv' = [fv EXCEPT ![c] = Mk(fv[c].cap, SeqOf(c) \o r)] /\ Op("PushBackRange", <<c, r>>, "ok")
+     THEN fv' = [fv EXCEPT ![c] = Keep(c, Mk(fv[c].cap, SeqOf(c) \o r))] /\ Op("PushBackRange", <<c, r>>, "ok")
      ELSE /\ fv' = [fv EXCEPT ![c].st = "dirty"] /\ Op("PushBackRange", <<c, r>>, "raise")
 
 Next ==
@@ -201,16 +205,15 @@ CopyIndependent ==
         /\ last'.args[1] = c /\ d # c => fv'[d] = fv[d]]_vars
 
 (* export of the transition graph: every edge once (tour construction and replay happen outside TLC) *)
-Abs == [c \in C |-> IF fv[c].st = "absent" THEN [st |-> "absent", cap |-> 0, seq |-> <<>>]
-                    ELSE IF fv[c].st = "dirty" THEN [st |-> "dirty", cap |-> fv[c].cap, seq |-> <<>>]
-                    ELSE [st |-> "live", cap |-> fv[c].cap, seq |-> SeqOf(c)]]
-AbsNext == [c \in C |-> IF fv'[c].st = "absent" THEN [st |-> "absent", cap |-> 0, seq |-> <<>>]
-                        ELSE IF fv'[c].st = "dirty" THEN [st |-> "dirty", cap |-> fv'[c].cap, seq |-> <<>>]
-                        ELSE [st |-> "live", cap |-> fv'[c].cap, seq |-> SubSeq(fv'[c].slots, 1, fv'[c].size)]]
+AbsOf(f) == [c \in C |-> IF f[c].st = "absent" THEN [st |-> "absent", cap |-> 0, seq |-> <<>>]
+                        ELSE IF f[c].st = "dirty" THEN [st |-> "dirty", cap |-> f[c].cap, seq |-> <<>>]
+                        ELSE [st |-> "live", cap |-> f[c].cap, seq |-> SubSeq(f[c].slots, 1, f[c].size)]]
+Abs == AbsOf(fv)
+WithGhost(f) == [c \in C |-> [st |-> AbsOf(f)[c].st, cap |-> AbsOf(f)[c].cap, seq |-> AbsOf(f)[c].seq, mf |-> f[c].mf]]
 (* C07: refinement -- every step of the slot-level machine is a step (or a stutter) of the bounded list *)
 BS == INSTANCE BoundedSeq WITH bs <- Abs
 Refines == BS!Spec
 
-EmitEdge == PrintT("EDGE " \o ToJson([from |-> Abs, act |-> last', to |-> AbsNext]))
+EmitEdge == PrintT("EDGE " \o ToJson([from |-> WithGhost(fv), act |-> last', to |-> WithGhost(fv')]))
 View == fv
 =============================================================================
